@@ -540,5 +540,8 @@ def tree_update(tree, update, types = (dict, Dict, dictattr), ignore = None):
         updated tree.
 
     """
+    types = as_tuple(types)
+    if isinstance(update, dict) and type(update) not in types: 
+        types = types + (type(update),) # the update is itself a tree, whichever dict class it is (a subclass of Dict, an OrderedDict..)
     items = tree_items(update, types)
     return items_to_tree(items, tree, ignore = ignore, types = types)
